@@ -519,7 +519,35 @@ def job_signals(which, n):
   return scn, None, mods
 
 
-JOBS = {'rates': job_rates, 'cm': job_cm, 'topk': job_topk, 'retrieval': job_retrieval, 'stats': job_stats, 'signals': job_signals}
+# ---- job: literal pattern frequency (texts are built from word choices that the solver enumerates; per path the library runs on
+#      concrete strings - the words deliberately contain regex metacharacters) ---------------------------------------------------
+TEXT_VOCAB = ('a', '.', 'b|a', 'a?')
+TEXT_PATTERNS = ('.', 'a', 'b|a', 'a?', '|a')
+
+
+def job_text(n, dup):
+  from ml_metrics._src.aggregates import text as agg_text
+  mods = _mods('aggregates.text', 'aggregates.utils', 'utils.math_utils')
+
+  def scn(c):
+    texts = [' '.join(TEXT_VOCAB[int(c.int(f'w{i}_{j}', 0, len(TEXT_VOCAB) - 1))] for j in range(2)) for i in range(n)]
+    with symx.patched(*mods):
+      m = agg_text.PatternFrequency(patterns=TEXT_PATTERNS, count_duplicate=dup)
+      half = max(1, n // 2)
+      m.add(texts[:half])
+      if texts[half:]:
+        m.add(texts[half:])
+      got = dict(m.result())
+    claims = []
+    for p in TEXT_PATTERNS:
+      per_text = [sum(1 for k in range(len(t)) if t.startswith(p, k)) for t in texts]        # overlapping literal occurrences
+      total = sum(per_text) if dup else sum(1 for x in per_text if x)
+      claims.append((f'frequency of the literal pattern {p!r} (count_duplicate={dup})', eqv(got.get(p, 0.0), z3.RealVal(total) / n)))
+    return claims
+  return scn, None, mods
+
+
+JOBS = {'text': job_text, 'rates': job_rates, 'cm': job_cm, 'topk': job_topk, 'retrieval': job_retrieval, 'stats': job_stats, 'signals': job_signals}
 
 
 def worker(job):
@@ -620,6 +648,8 @@ def run(tier):
     # macro over top-k matrices is in the quick tier too: the macro mean was taken over the k axis (fixed: 6cc113b)
     for a in ('micro', 'macro'):
       jobs.append(('topk', (tuple(kl), 1 if q else 2, a)))
+  for dup in (True, False):
+    jobs.append(('text', (2 if q else 3, dup)))
   for kl, npred in (((1, 2, 3), 3), ((2,), 3), ((1, 2), 2)):
     jobs.append(('retrieval', (kl, 1 if q else 2, npred)))
   for w in ('moments', 'moments2d', 'moments2d_2batches', 'minmax', 'histogram', 'calibration', 'tjur', 'pearson', 'spd'):
@@ -631,7 +661,7 @@ def run(tier):
   rep.bounds(rows=n, classes=3, k_lists=[[1, 2], [1, 3], [2], [3], [1, 2, 3]], counts='unbounded non-negative integers for the rate obligations',
              note='labels from {0,1,2}; scores/measurements arbitrary reals with explicit NaN case split; rankings without repeated ids')
   rep.outside('floating-point rounding', '+-inf (cut paths counted)', 'cg_score, image and text signals, Keras wrapper', 'text frequency metrics (structure covered by C01/C11)',
-              'ThresholdedRetrieval interpolation', 'ties in top-k accuracy (numpy argsort order among equal scores)')
+              'text metrics other than PatternFrequency over a 4-word vocabulary with regex metacharacters', 'ThresholdedRetrieval interpolation', 'ties in top-k accuracy (numpy argsort order among equal scores)')
   rep.assume('sqrt/log/log2 are uninterpreted functions with square / sign axioms (rates that need sqrt are characterised without it)',
              'numpy facade validated against real numpy (see C01/C11 translator_validation)')
   from ml_metrics._src.aggregates import retrieval as ret, rolling_stats as rs
